@@ -12,3 +12,43 @@ def run(rep, tier):
                         "rule": "distinct expressions"})
     for f in b4["failures"][:6]:
         rep.violation("B4: " + f["what"][:60] + ": " + f["expr"][:80], f, {"kind": "expr", "expr": f["expr"]}, witness=f["expr"])
+
+
+def decide(rep):
+    """F6 - the contract of __repr__ decided unit by unit (pvc/bex_misc.py export_decision): the body has the reviewed form (two
+    re.sub calls with constant regexes around repr(..)[1:-1]: it tells characters apart only as backslash / quotes / printable
+    ASCII / other printable / non-printable), the real function equals the unit-wise reference on every string up to a length over
+    representatives of those classes (and on long backslash runs), and for EVERY code point the image of a unit parses, in every
+    kind of context, to what the unit parses to."""
+    import ast, copy
+    from .. import extract
+    from contracts.f2_forms import FORMS
+    fi = extract.Index().func("pregex.core.pre.Pregex.__repr__")
+    body = [s for s in copy.deepcopy(fi.node).body if not (isinstance(s, ast.Expr) and isinstance(s.value, ast.Constant))]
+    same_form = "\n".join(ast.unparse(s) for s in body) == FORMS["__repr__"]
+    r = native("run_module", {"module": "pvc.bex_misc", "func": "export_decision"}, timeout=3600)
+    for b in r["word_bad"][:4]:
+        e = "Pregex(%r, escape=False)" % b["pattern"]
+        rep.violation("F6: exported text is not the unit-wise image: " + e[:70], b,
+                      {"kind": "python", "code": f"import re\np = {e}\nq = {e}\nq.compile()\nt = str(p) + 'a\\n\\x85\\\\n\\'\"' + p.get_pattern()\n"
+                       "observed = (p.get_pattern(), p.get_matches(t), q.get_matches(t))\n"
+                       "def _c(x):\n    try:\n        return re.compile(x, re.M | re.S)\n    except re.error:\n        return None\n"
+                       "a, b = _c(str(p)), _c(p.get_pattern())\n"
+                       "violated = (a is None) != (b is None) or (a is not None and (a.findall(t) != b.findall(t) or not p.get_pattern().isprintable()))"},
+                      witness=e)
+    for b in r["unit_bad"][:4]:
+        e = "Pregex(%r, escape=False)" % (b.get("context", "%s") % b["unit"])
+        rep.violation("F6: " + b["what"] + ": " + e[:70], b, {"kind": "expr", "expr": e}, witness=e)
+    what = (f"F6: __repr__ unit by unit: {r['words']} strings up to length {r['max_length']} over {len(r['alphabet'])} class "
+            f"representatives equal the unit-wise reference; {r['unit_checks']} (unit, context) parses over every code point")
+    if r["word_bad"] or r["unit_bad"]:
+        rep.ob(what, "failed", "cpython-exhaustive", 0, kind="finite")
+    elif same_form:
+        rep.ob(what + " (body has the reviewed form)", "discharged", "cpython-exhaustive", 0, kind="finite")
+    else:
+        rep.ob("F6: __repr__: the body no longer has the form the unit-wise argument was made for; all runs agree", "unknown", "ast-scan", 0,
+               kind="refinement-lost")
+    rep.finite.append({"what": "Pregex.__repr__: real function vs unit-wise reference on all strings over the class representatives up to the "
+                               "stated length; image of every unit (c, backslash+c) for every code point in 11 kinds of context",
+                       "evaluations": r["words"] + r["unit_checks"], "distinct_nontrivial": r["words"] + r["unit_checks"],
+                       "exhaustive": bool(same_form), "rule": "strings + (code point, unit, context) triples"})
